@@ -18,7 +18,7 @@ T1_MODULES = {
     "C09": ["vt.contracts.con_cost", "vt.contracts.processor_legs", "vt.contracts.dp_step"],
     "C10": ["vt.contracts.path_convert", "vt.contracts.traversal"],
     "C14": ["vt.contracts.reusable_policy", "vt.contracts.diskdict_effects"],
-    "C18": ["vt.contracts.legs_rules", "vt.contracts.processor_legs", "vt.contracts.core_legs", "vt.contracts.hypergraph_ops"],
+    "C18": ["vt.contracts.syntactic", "vt.contracts.legs_rules", "vt.contracts.processor_legs", "vt.contracts.core_legs", "vt.contracts.hypergraph_ops"],
     "C19": ["vt.contracts.exponent", "vt.contracts.contractor_protocol"],
     "C20": ["vt.contracts.compressed_tracker", "vt.contracts.hypergraph_ops"],
 }
